@@ -130,3 +130,26 @@ pub fn endpoint_values(f: Fmt, kmin: u32) -> Vec<u64> {
     out.dedup();
     out
 }
+
+/// Values whose scientific exponent is exactly one of the negative / positive exponent break
+/// points the option families use inside the float range (the tight case of every size bound).
+pub fn break_values<T: crate::common::Flt>() -> Vec<u64> {
+    let f = T::FMT;
+    let mut v = Vec::new();
+    for n in [5i32, 13, 20, 30, 300, 9, 10] {
+        for m in ["1", "1.5", "9.99", "1.2345678901234567"] {
+            for sign in ["", "-"] {
+                for es in ["-", ""] {
+                    if let Some(b) = T::std_parse(&format!("{sign}{m}e{es}{n}")) {
+                        if f.is_finite(b) && f.abs(b) != 0 {
+                            v.push(b);
+                        }
+                    }
+                }
+            }
+        }
+    }
+    v.sort_unstable();
+    v.dedup();
+    v
+}
